@@ -7,7 +7,7 @@ import zlib
 
 from engine import gen_states, pool_map
 from props.coords_common import segs_of, cigar_for, nid
-from readers import join_lines, gaf_record, line_at, load_pickle, read_text, run_cli, write_text, workdir, lines_of
+from readers import read_out, join_lines, gaf_record, line_at, load_pickle, read_text, run_cli, write_text, workdir, lines_of
 
 
 def gfa_text(segs, links):
@@ -135,7 +135,7 @@ def run_session(job):
         # whole-file conversions (also the reference for --format selections)
         cs = os.path.join(d, "conv_s.gaf")
         r = run_cli(["view", U, "-g", gfa, "-f", "stable", "-o", cs])
-        slines = lines_of(open(cs).read()) if r["status"] == "ok" else None
+        slines = lines_of(read_out(cs)) if r["status"] == "ok" else None
         files = [("unstable", U, ulines)]
         if slines is not None and len(slines) == len(ulines):
             S = os.path.join(d, "s.gaf" + ext)
@@ -147,7 +147,7 @@ def run_session(job):
             if fmt == "stable":
                 cu = os.path.join(d, "conv_u.gaf")
                 r = run_cli(["view", F, "-g", gfa, "-f", "unstable", "-o", cu])
-                conv = lines_of(open(cu).read()) if r["status"] == "ok" else None
+                conv = lines_of(read_out(cu)) if r["status"] == "ok" else None
             c = {"id": f"{sid}.{fmt}", "mode": mode, "truncated": False, "sampled": scale > 1, "segs": segs, "file": [abstract(l) for l in lines], "fmt": fmt,
                  "storage": storage, "gfa_gz": gfa_gz, "session": {k: st[k] for k in ("ref", "hap", "extra", "avoid")}}
             gvi = F + ".gvi"
@@ -182,7 +182,7 @@ def run_session(job):
                         if os.path.exists(o):
                             os.unlink(o)
                         r = run_cli(["view", F, "-o", o] + iargs + args, timeout=8)
-                    txt = open(o).read() if os.path.exists(o) else ""
+                    txt = read_out(o) if os.path.exists(o) else ""
                     return r["status"], positions(txt, ref or [])
 
                 names = list(segs)
